@@ -5,7 +5,7 @@ import tempfile
 import threading
 
 from vf import hostframe, snapcheck
-from vf.rig import Rig
+from vf.rig import Rig, MonitorError
 
 
 _thread_counter = [0]
@@ -61,7 +61,11 @@ class FrameCase:
                 self.hits += 1
                 new = rig.push.pushed[seen[0]:]
                 seen[0] = len(rig.push.pushed)
-                on_hit(ev, frame, snapcheck.read_stack(frame), new)
+                try:
+                    on_hit(ev, frame, snapcheck.read_stack(frame), new)
+                except BaseException:  # noqa - a failure of the monitor itself: never a verdict, never silent
+                    import traceback
+                    self.monitor_error = traceback.format_exc()[-1500:]
 
         rig.post = post
 
@@ -81,4 +85,6 @@ class FrameCase:
 
         hung, exc = rig.run(go)
         rig.cleanup()
+        if getattr(self, 'monitor_error', None):
+            raise MonitorError(self.monitor_error)
         return bool(hung), exc
